@@ -928,6 +928,15 @@ func (r *RIB) rmPending(id uint64) {
 	delete(r.pendingEntries, id)
 }
 
+// CancelPending discards all operations that are held in the pending queue, they are
+// neither installed nor reported subsequently. It is used when the client that the
+// pending operations were received from can no longer be sent their results.
+func (r *RIB) CancelPending() {
+	r.pendMu.Lock()
+	defer r.pendMu.Unlock()
+	r.pendingEntries = map[uint64]*pendingEntry{}
+}
+
 // canResolve takes an input candidate RIB, which contains only the new entry
 // being added and determines whether it can be resolved against the existing set
 // of RIBs that are stored in r. The specified netInst string is used to
